@@ -1701,7 +1701,12 @@ def percent_form(node):
             return None
     else:
         return None
-    right = ast.Tuple(elts=args, ctx=ast.Load())          # always a tuple: `'%s' % x` would unpack a tuple-valued x
+    def scalar(e):
+        """cannot be a tuple: `'%s' % e` formats e itself"""
+        return isinstance(e, ast.Constant) or (isinstance(e, ast.Call) and ast.unparse(e.func) in ('len', 'int', 'str', 'float', 'repr')) or \
+            (isinstance(e, ast.BinOp) and not isinstance(e.op, ast.Add)) or isinstance(e, (ast.JoinedStr,))
+    # `'%s' % x` would unpack a tuple-valued x: a single argument stays bare only when it cannot be a tuple
+    right = args[0] if len(args) == 1 and scalar(args[0]) else ast.Tuple(elts=args, ctx=ast.Load())
     return ast.copy_location(ast.BinOp(left=ast.copy_location(ast.Constant(value=out), node), op=ast.Mod(), right=right), node)
 
 
@@ -1811,8 +1816,13 @@ def normalize(relpath, text, tree):
         nu += unroll_literal_loops(fn, p[0])
         na += attribute_spelling(fn, p[0])
         nb += branch_shapes(fn, p[0])
-        nc += loops_to_comprehensions(fn, p[0])
-        nt += propagate_new_temporaries(fn, p[0])
+        for _round in range(3):
+            c_ = loops_to_comprehensions(fn, p[0])
+            t_ = propagate_new_temporaries(fn, p[0])
+            nc += c_
+            nt += t_
+            if not (c_ or t_):
+                break
         nr += len(rename_toward(fn, p[0]))
     if nl:
         stats['local_helpers'] = nl
